@@ -182,11 +182,11 @@ pub fn probe_structures() -> i32 {
         }
     }
     // builders: what create/add helpers hand to the closure, and what verification sees after the wire
-    for &la in &[0usize, 24, 255, 256, 65535] {
+    for (&la, empty_hdr) in [0usize, 24, 255, 256, 65535].iter().zip([false, true, false, true, false]).chain([0usize, 24].iter().zip([true, false])) {
         let aad = bytes(la, 3);
         let payload = bytes(la / 2 + 5, 4);
-        let hdr = HeaderBuilder::new().algorithm(iana::Algorithm::ES256).key_id(vec![9, 9]).build();
-        let slot = hdr.clone().to_vec().unwrap();
+        let hdr = if empty_hdr { Header::default() } else { HeaderBuilder::new().algorithm(iana::Algorithm::ES256).key_id(vec![9, 9]).build() };
+        let slot: Vec<u8> = if empty_hdr { vec![] } else { hdr.clone().to_vec().unwrap() };
         if relevant("C03,C06,C01") {
         let mut created: Vec<Vec<u8>> = vec![];
         let s1 = CoseSign1Builder::new().protected(hdr.clone()).payload(payload.clone()).create_signature(&aad, |d| { created.push(d.to_vec()); vec![7; 4] }).build();
@@ -648,6 +648,8 @@ pub fn probe_framing() -> i32 {
             let got = <$t>::from_tagged_slice(&b).is_ok();
             if got != (t == $tag) { if report("C14", format!("{}::from_tagged_slice {} tag {}: {}", $name, hex(&b), t, if got { "accepted" } else { "rejected" })) { return 1; } }
             if <$t>::from_slice(&b).is_ok() { if report("C14", format!("{}::from_slice accepts the tagged item {}", $name, hex(&b))) { return 1; } }
+            { let mut own = head(6, $tag); own.extend($body); let mut outer = head(6, t); outer.extend(&own);
+              if <$t>::from_tagged_slice(&outer).is_ok() { if report("C14", format!("{} accepts {} = tag {} around its own correctly tagged encoding", $name, hex(&outer), t)) { return 1; } } }
             let mut bb = head(6, $tag); bb.extend(&b);
             if <$t>::from_tagged_slice(&bb).is_ok() { if report("C14", format!("{} accepts the doubly tagged item {}", $name, hex(&bb))) { return 1; } }
         }
@@ -829,7 +831,7 @@ pub fn probe_order() -> i32 {
     // canonicalize: every rotation of a palette of extra labels (no label 0: known finding), both orderings
     let extras: Vec<Label> = vec![Label::Int(-1), Label::Int(24), Label::Int(-24), Label::Int(-25), Label::Int(6), Label::Int(255), Label::Int(-256), Label::Int(256), Label::Int(-257),
                                   Label::Text("".into()), Label::Text("k".into()), Label::Int(65536), Label::Int(-65536), Label::Int(-65537),
-                                  Label::Text("t".repeat(22)), Label::Text("u".repeat(23)), Label::Text("v".repeat(24)), Label::Text("w".repeat(253)), Label::Text("x".repeat(254)), Label::Text("y".repeat(255)), Label::Text("z".repeat(256))];
+                                  Label::Text("zeta".into()), Label::Text("beta".into()), Label::Text("y".into()), Label::Text("x".into()), Label::Text("t".repeat(22)), Label::Text("u".repeat(23)), Label::Text("v".repeat(24)), Label::Text("w".repeat(253)), Label::Text("x".repeat(254)), Label::Text("y".repeat(255)), Label::Text("z".repeat(256))];
     for rot in 0..extras.len() { for typed in 0..4 {
         let mut k = CoseKeyBuilder::new_symmetric_key(vec![1]).build();
         k.params.clear();
